@@ -175,6 +175,8 @@ def run(ctx):
                         nm = b.local_name(s1[1])
                         ctx.ok("C12-R3", "the slice bounds are start()/end() of one span (`%s`)" % nm, c.where())
         ctx.check(ok, "C12-R3", "slice-shape", "the text examined is `code[span.start()..span.end()]` of a single span", c.where())
+    from .c05 import rule_same_text
+    rule_same_text(ctx, facts, "C12-R3")
     # R4 token ⊆ regex
     tb, tt = token_template(ctx, facts, "C12-R4")
     if tt is not None and prog_re is not None:
